@@ -38,6 +38,11 @@ M(t) == LET a == t.arch IN
         [n \in SearchLayers(a) |-> IF LRec(t, n).mask_ok THEN Pat(LRec(t, n).mask) ELSE AllTrue(Ch(a, n))]
 
 (* ----------------------------- known findings -------------------------- *)
+\* signature of F67 (trace-dependent): a 'same'-padded (neither causal nor un-padded) Conv1d whose time mask pruned a tap
+KF_SamePadPruned(t) ==
+    t.arch.dim = 1 /\ \E i \in DOMAIN t.L :
+        LET r == t.L[i]  nd == Nd(t.arch, r.n) IN
+        nd.op = "conv" /\ ~nd.causal /\ ~nd.valid /\ r.t /\ \E j \in DOMAIN r.tmask : r.tmask[j] = 0
 Known(t) ==
     LET a == t.arch IN
     IF KF_Reuse(a) THEN "known:F09:a searchable layer is invoked at two call sites (one mask / one input calculator per layer object)"
@@ -48,6 +53,7 @@ Known(t) ==
     ELSE IF KF_NonZeroOp(a) THEN "known:F29:sigmoid (an op of plinio's features-propagating list) maps the exact zeros of a pruned channel to 1/2: the consumer still reads that channel in the masked network, export() removes it"
     ELSE IF KF_CatIntoOutput(a) THEN "known:F25:a channel concat feeds the network output; its prunable parts are not frozen, the exported output width changes"
     ELSE IF KF_MixedWidthGroup(a) THEN "known:F24:producers of different widths (conv->flatten and linear) meet in one residual add and share one masker"
+    ELSE IF KF_SamePadPruned(t) THEN "known:F67:a Conv1d declared with padding='same' lost a tap: the masked kernel keeps its trailing taps inside the original padding, the exported layer re-centres the smaller kernel (shifted output)"
     ELSE ""
 
 Fail(t, clause) == IF Known(t) # "" THEN Known(t) ELSE clause
@@ -92,6 +98,10 @@ C01Layer(t, n) ==
                  ~MA!TermsEqualObs(r.K, r.d0, e.taps, e.k, e.dil, IF e.pad = <<>> THEN -1 ELSE e.pad[1])
               THEN "C01.time layer " \o ToString(n) \o ": exported taps " \o ToString(e.taps) \o " k=" \o ToString(e.k)
                        \o " dil=" \o ToString(e.dil) \o " pad=" \o ToString(e.pad) \o " do not read the samples of the kept taps (K="
+                       \o ToString(r.K) \o ", d0=" \o ToString(r.d0) \o ")"
+         ELSE IF r.t /\ a.dim = 1 /\ ~Nd(a, n).causal /\ ~Nd(a, n).valid /\ ~MA!TermsEqualSameObs(r.K, r.d0, e.taps, e.k, e.dil)
+              THEN "C01.time-same layer " \o ToString(n) \o ": exported taps " \o ToString(e.taps) \o " k=" \o ToString(e.k)
+                       \o " dil=" \o ToString(e.dil) \o " with padding='same' do not read the samples of the kept taps (K="
                        \o ToString(r.K) \o ", d0=" \o ToString(r.d0) \o ")"
          ELSE IF r.t /\ Idx1(e.taps) # Positions1(Pat(r.tmask))
               THEN "C01.time-kept layer " \o ToString(n) \o ": exported taps differ from the taps kept by the forward pass"
